@@ -21,37 +21,36 @@ macro "c04_finish" : tactic => `(tactic|
   (c04_simp <;> (try (split <;> simp_all [absProp, Stored.repInv, VProp.repInv]))))
 
 /-- what "refines the spec and keeps the representation invariant" means for one cell -/
-def CellOk {V} [DecidableEq V] (fixed : Bool) (undef : V) (existing : Option (Stored V)) (d : Desc V) (ext : Bool) : Prop :=
-  (defineOwn fixed undef existing d ext).map (absProp undef) = validateAndApply undef (existing.map (absProp undef)) d ext
-  ∧ ∀ s, defineOwn fixed undef existing d ext = some s → s.repInv = true
+def CellOk {V} [DecidableEq V] (undef : V) (existing : Option (Stored V)) (d : Desc V) (ext : Bool) : Prop :=
+  (defineOwn undef existing d ext).map (absProp undef) = validateAndApply undef (existing.map (absProp undef)) d ext
+  ∧ ∀ s, defineOwn undef existing d ext = some s → s.repInv = true
 
-theorem cell_new {V} [DecidableEq V] (fixed : Bool) (undef : V) (d : Desc V) (ext : Bool) (hw : d.wellFormed = true) :
-    CellOk fixed undef none d ext := by
+theorem cell_new {V} [DecidableEq V] (undef : V) (d : Desc V) (ext : Bool) (hw : d.wellFormed = true) :
+    CellOk undef none d ext := by
   unfold CellOk
-  c04_desc_cases d hw <;> cases ext <;> cases fixed <;> c04_finish
+  c04_desc_cases d hw <;> cases ext <;> c04_finish
 
-theorem cell_plain {V} [DecidableEq V] (fixed : Bool) (undef x : V) (d : Desc V) (ext : Bool) (hw : d.wellFormed = true)
-    (hk : fixed = true ∨ d.isAccessor = false) :
-    CellOk fixed undef (some (.plain x)) d ext := by
+theorem cell_plain {V} [DecidableEq V] (undef x : V) (d : Desc V) (ext : Bool) (hw : d.wellFormed = true):
+    CellOk undef (some (.plain x)) d ext := by
   unfold CellOk
-  c04_desc_cases d hw <;> cases fixed <;> simp [Desc.isAccessor] at hk <;> c04_finish
+  c04_desc_cases d hw <;> c04_finish
 
-theorem cell_data_cfg {V} [DecidableEq V] (fixed : Bool) (undef x : V) (pw pe : Bool) (d : Desc V) (ext : Bool)
-    (hw : d.wellFormed = true) (hk : fixed = true ∨ d.isAccessor = false) :
-    CellOk fixed undef (some (.prop { value := some x, writable := pw, configurable := true, enumerable := pe, accessor := false, getterFunc := none, setterFunc := none })) d ext := by
+theorem cell_data_cfg {V} [DecidableEq V] (undef x : V) (pw pe : Bool) (d : Desc V) (ext : Bool)
+    (hw : d.wellFormed = true) :
+    CellOk undef (some (.prop { value := some x, writable := pw, configurable := true, enumerable := pe, accessor := false, getterFunc := none, setterFunc := none })) d ext := by
   unfold CellOk
-  c04_desc_cases d hw <;> cases fixed <;> simp [Desc.isAccessor] at hk <;> cases pw <;> cases pe <;> c04_finish
+  c04_desc_cases d hw <;> cases pw <;> cases pe <;> c04_finish
 
-theorem cell_data_ncfg {V} [DecidableEq V] (fixed : Bool) (undef x : V) (pw pe : Bool) (d : Desc V) (ext : Bool)
-    (hw : d.wellFormed = true) (hk : fixed = true ∨ d.isAccessor = false) :
-    CellOk fixed undef (some (.prop { value := some x, writable := pw, configurable := false, enumerable := pe, accessor := false, getterFunc := none, setterFunc := none })) d ext := by
+theorem cell_data_ncfg {V} [DecidableEq V] (undef x : V) (pw pe : Bool) (d : Desc V) (ext : Bool)
+    (hw : d.wellFormed = true) :
+    CellOk undef (some (.prop { value := some x, writable := pw, configurable := false, enumerable := pe, accessor := false, getterFunc := none, setterFunc := none })) d ext := by
   unfold CellOk
-  c04_desc_cases d hw <;> cases fixed <;> simp [Desc.isAccessor] at hk <;> cases pw <;> cases pe <;> c04_finish
+  c04_desc_cases d hw <;> cases pw <;> cases pe <;> c04_finish
 
-theorem cell_acc {V} [DecidableEq V] (fixed : Bool) (undef : V) (pg ps : Option V) (pe pc : Bool) (d : Desc V) (ext : Bool)
-    (hw : d.wellFormed = true) (hk : fixed = true ∨ d.isData = false) :
-    CellOk fixed undef (some (.prop { value := none, writable := false, configurable := pc, enumerable := pe, accessor := true, getterFunc := pg, setterFunc := ps })) d ext := by
+theorem cell_acc {V} [DecidableEq V] (undef : V) (pg ps : Option V) (pe pc : Bool) (d : Desc V) (ext : Bool)
+    (hw : d.wellFormed = true) :
+    CellOk undef (some (.prop { value := none, writable := false, configurable := pc, enumerable := pe, accessor := true, getterFunc := pg, setterFunc := ps })) d ext := by
   unfold CellOk
-  c04_desc_cases d hw <;> cases fixed <;> simp [Desc.isData, Flag.isSet] at hk <;> cases pe <;> cases pc <;> c04_finish
+  c04_desc_cases d hw <;> cases pe <;> cases pc <;> c04_finish
 
 end GojaModel.C04
